@@ -96,15 +96,21 @@ package texttable
 //@ -- measuredOK(): measured cell widths are lengths (N8: declared widths below 2^40)
 //@ pred measuredOK() = forall c *tabular.Cell :: {propOf(c, kDims())} 0 <= cellW(c) && cellW(c) <= 1099511627776
 
+//@ -- line structure (C03): ghost counters of the rule lines and of the content lines written by one render
+//@ ghost var ttRules Int
+//@ ghost var ttContent Int
+
 //@ func (*TextTable).RenderTo
 //@   tags C03,C04,C15,C17,C09,C14
 //@   requires t != nil && tbl(t.Table) && ttab(t).nColumns <= 1048576
-//@   assigns heap[tabular.propertyImpl.properties], new(tabular.valueProperty), ttab(t).ErrorContainer.errors_, elemscap(ttab(t).ErrorContainer.errors_), ghost cbErrN, ghost cbErrLog, ghost cbCallN, ghost cbCallSelf, ghost cbCallOwner, ghost stage, ghost fires, ghost stageR, ghost firesR, ghost stageT, ghost stageC, ghost Wn, ghost Wchunk, ghost Wfailed, new(int), new(string), new(align.Alignment), new(decoration.WidthString), new([]decoration.WidthString), new(decoration.emitter), new(tabular.Cell)
+//@   assigns heap[tabular.propertyImpl.properties], new(tabular.valueProperty), ttab(t).ErrorContainer.errors_, elemscap(ttab(t).ErrorContainer.errors_), ghost cbErrN, ghost cbErrLog, ghost cbCallN, ghost cbCallSelf, ghost cbCallOwner, ghost stage, ghost fires, ghost stageR, ghost firesR, ghost stageT, ghost stageC, ghost Wn, ghost Wchunk, ghost Wfailed, ghost ttRules, ghost ttContent, new(int), new(string), new(align.Alignment), new(decoration.WidthString), new([]decoration.WidthString), new(decoration.emitter), new(tabular.Cell)
 //@   requires [writer-ok] !Wfailed
 //@   call InvokeRenderCallbacks after assume alignsValid(ttab(t)) && measuredOK()
 //@   ensures [error-list-grows-only-by-callback-errors] cbErrN >= old(cbErrN) && len(ttab(t).ErrorContainer.errors_) == old(len(ttab(t).ErrorContainer.errors_)) + (cbErrN - old(cbErrN)) @C14,C11
 //@   ensures [table-still-wellformed] tbl(t.Table) @C09,C14
 //@   ensures [empty-decoration-refused] t.decor == decoration.EmptyDecoration ==> result != nil && Wn == old(Wn) @C17
+//@   ensures [rules-top-header-separators-bottom] result == nil ==> ttRules == old(ttRules) + 2 + (ttab(t).headerRow != nil ? 1 : 0) + (len(ttab(t).rows) - nonsep(heap[[]*tabular.Row], heap[tabular.Row.isSeparator], ttab(t).rows, len(ttab(t).rows))) @C03
+//@   ensures [at-least-one-content-line-per-header-and-row] result == nil ==> ttContent >= old(ttContent) + (ttab(t).headerRow != nil ? 1 : 0) + nonsep(heap[[]*tabular.Row], heap[tabular.Row.isSeparator], ttab(t).rows, len(ttab(t).rows)) @C03
 //@   ensures [failing-writer-surfaces] Wfailed ==> result != nil @C15
 //@   ensures [decoration-untouched] t.decor == old(t.decor) @C14
 //@   loop#1 invariant -1 <= rangeindex && rangeindex < columnCount && t != nil && tbl(t.Table) && alignsValid(ttab(t)) && measuredOK() && !Wfailed && columnCount == ttab(t).nColumns && columnCount <= 1048576 && len(columnWidths) == columnCount && fresh(columnWidths) && len(columnAligns) == columnCount && fresh(columnAligns) && (ttab(t).headerRow == nil ==> len(headers) == 0) && (ttab(t).headerRow != nil ==> headers === ttab(t).headerRow.cells) && widthsOK(columnWidths) && Wn == old(Wn)
@@ -132,13 +138,26 @@ package texttable
 //@   loop#4 decreases columnCount - rangeindex
 //@   call ForColumnWidths before assert [column-fits-its-widest-cell] (forall i int :: {columnWidths[i]} 0 <= i && i < len(headers) && i < columnCount ==> cellW(&headers[i]) <= columnWidths[i]) && (forall r int, i int :: {&ttab(t).rows[r].cells[i]} 0 <= r && r < len(ttab(t).rows) && !ttab(t).rows[r].isSeparator && 0 <= i && i < len(ttab(t).rows[r].cells) ==> cellW(&ttab(t).rows[r].cells[i]) <= columnWidths[i]) @C03
 //@   call ForColumnWidths before assert [effective-alignment-own-else-column-0] forall i int :: {columnAligns[i]} 0 <= i && i < columnCount ==> columnAligns[i] == effAlign(ttab(t), i) @C04
+//@   call WriteString#1 after ghost ttRules = ttRules + 1
+//@   call WriteString#2 after ghost ttContent = ttContent + 1
+//@   call WriteString#3 after ghost ttRules = ttRules + 1
+//@   call WriteString#4 after ghost ttRules = ttRules + 1
+//@   call WriteString#5 after ghost ttRules = ttRules + 1
+//@   call WriteString#6 after ghost ttContent = ttContent + 1
+//@   call WriteString#7 after ghost ttRules = ttRules + 1
+//@   entry unfold nonsep(heap[[]*tabular.Row], heap[tabular.Row.isSeparator], ttab(t).rows, 0)
 //@   loop#5 invariant -1 <= rangeindex && rangeindex < len(rangeslice) && t != nil && tbl(t.Table) && alignsValid(ttab(t)) && measuredOK() && !Wfailed && columnCount == ttab(t).nColumns && columnCount <= 1048576 && len(columnWidths) == columnCount && fresh(columnWidths) && len(columnAligns) == columnCount && fresh(columnAligns) && (ttab(t).headerRow == nil ==> len(headers) == 0) && (ttab(t).headerRow != nil ==> headers === ttab(t).headerRow.cells) && widthsOK(columnWidths) && emitter.decor == &t.decor && emitter.colWidths === columnWidths && -4611686018427387904 <= emitter.totalWidth && emitter.totalWidth <= 4611686018427387904 && (forall i int :: {columnAligns[i]} 0 <= i && i < columnCount ==> columnAligns[i] == effAlign(ttab(t), i))
+//@   loop#5 invariant ttab(t).headerRow != nil && ttRules == old(ttRules) + 1 && ttContent == old(ttContent) + rangeindex + 1
 //@   loop#5 assigns nothing
 //@   loop#5 decreases len(rangeslice) - rangeindex
 //@   loop#6 invariant -1 <= rangeindex && rangeindex < len(ttab(t).rows) && t != nil && tbl(t.Table) && alignsValid(ttab(t)) && measuredOK() && !Wfailed && columnCount == ttab(t).nColumns && columnCount <= 1048576 && len(columnWidths) == columnCount && fresh(columnWidths) && len(columnAligns) == columnCount && fresh(columnAligns) && (ttab(t).headerRow == nil ==> len(headers) == 0) && (ttab(t).headerRow != nil ==> headers === ttab(t).headerRow.cells) && widthsOK(columnWidths) && emitter.decor == &t.decor && emitter.colWidths === columnWidths && -4611686018427387904 <= emitter.totalWidth && emitter.totalWidth <= 4611686018427387904 && (forall i int :: {columnAligns[i]} 0 <= i && i < columnCount ==> columnAligns[i] == effAlign(ttab(t), i))
+//@   loop#6 invariant ttRules == old(ttRules) + 1 + (ttab(t).headerRow != nil ? 1 : 0) + (rangeindex + 1 - nonsep(heap[[]*tabular.Row], heap[tabular.Row.isSeparator], ttab(t).rows, rangeindex + 1)) && ttContent >= old(ttContent) + (ttab(t).headerRow != nil ? 1 : 0) + nonsep(heap[[]*tabular.Row], heap[tabular.Row.isSeparator], ttab(t).rows, rangeindex + 1)
+//@   loop#6 unfold nonsep(heap[[]*tabular.Row], heap[tabular.Row.isSeparator], ttab(t).rows, rangeindex + 2)
 //@   loop#6 assigns nothing
 //@   loop#6 decreases len(ttab(t).rows) - rangeindex
 //@   loop#7 invariant -1 <= rangeindex && rangeindex < len(rangeslice) && -1 <= rangeindex6 && rangeindex6 + 1 < len(ttab(t).rows) && t != nil && tbl(t.Table) && alignsValid(ttab(t)) && measuredOK() && !Wfailed && columnCount == ttab(t).nColumns && columnCount <= 1048576 && len(columnWidths) == columnCount && fresh(columnWidths) && len(columnAligns) == columnCount && fresh(columnAligns) && (ttab(t).headerRow == nil ==> len(headers) == 0) && (ttab(t).headerRow != nil ==> headers === ttab(t).headerRow.cells) && widthsOK(columnWidths) && emitter.decor == &t.decor && emitter.colWidths === columnWidths && -4611686018427387904 <= emitter.totalWidth && emitter.totalWidth <= 4611686018427387904 && (forall i int :: {columnAligns[i]} 0 <= i && i < columnCount ==> columnAligns[i] == effAlign(ttab(t), i))
+//@   loop#7 invariant !ttab(t).rows[rangeindex6 + 1].isSeparator && ttRules == old(ttRules) + 1 + (ttab(t).headerRow != nil ? 1 : 0) + (rangeindex6 + 1 - nonsep(heap[[]*tabular.Row], heap[tabular.Row.isSeparator], ttab(t).rows, rangeindex6 + 1)) && ttContent >= old(ttContent) + (ttab(t).headerRow != nil ? 1 : 0) + nonsep(heap[[]*tabular.Row], heap[tabular.Row.isSeparator], ttab(t).rows, rangeindex6 + 1) + rangeindex + 1
+//@   loop#7 unfold nonsep(heap[[]*tabular.Row], heap[tabular.Row.isSeparator], ttab(t).rows, rangeindex6 + 2)
 //@   loop#7 assigns nothing
 //@   loop#7 decreases len(rangeslice) - rangeindex
 //@   call HeaderLineRendered before assert [header-line-parts-passed-through] arg2 === columnAligns && arg0.colWidths === columnWidths && len(arg1) == columnCount @C04
